@@ -224,6 +224,7 @@ def check(tier):
     # the array backend's configuration (element count), including narrow index types: rules C01.d
     from . import c01
     c01.declare(rep)
+    rep.rules.pop("C01.b-ctor", None)
     c01.run_array(rep, tier)
     rep.assumptions = ["array backend's configuration (element count) is decided by the C01.d rules, evaluated here too",
                        "'a field rebuilt from the reported configurations and storage is equal' follows because every lookup is a function of (configuration, storage) only (C02, C16)",
